@@ -36,6 +36,8 @@ val sub : nat -> nat -> nat
 
 module Nat :
  sig
+  val pred : nat -> nat
+
   val sub : nat -> nat -> nat
 
   val eqb : nat -> nat -> bool
@@ -1037,6 +1039,15 @@ val submitted : str list -> str list
 
 val stored_after : nat -> str list -> str list -> str list
 
+type nav_op =
+| NEdit of str
+| NPrev
+| NNext
+
+type nav = { nv_text : (nat -> str); nv_cur : nat; nv_last : nat }
+
+val nav_step : nav -> nav_op -> nav
+
 type hist = { h_lines : str list; h_modified : (nat * str) list; h_max : 
               nat; h_cursor : nat }
 
@@ -1088,6 +1099,10 @@ val as_session : val0 -> session
 val d_sessions : nat -> fs -> session list -> val0 list
 
 val d_spec_stored : nat -> fs -> str list -> val0
+
+val spec_nav_run : nav -> sop list -> str list
+
+val spec_nav : str list -> sop list -> str list
 
 val dispatch_history : z -> val0 -> val0 option
 
